@@ -8,7 +8,7 @@ WT=$(mktemp -d /tmp/wt_verify.XXXXXX); rmdir "$WT"
 git -C /repo worktree add --detach "$WT" ${SEED_BASE:-HEAD} >/dev/null 2>&1 || { echo '{"error":"worktree"}' > "$OUT"; exit 2; }
 cleanup() { git -C /repo worktree remove --force "$WT" >/dev/null 2>&1; rm -rf "$WT"; }
 trap cleanup EXIT
-cd "$WT"
+cd "$WT"; export PYTHONPATH="$WT"
 /venv/bin/python -W ignore "$SD/demo.py" >/dev/null 2>&1; demo_clean=$?
 P="$SD/patch.diff"; [ -f "$SD/patch_rebased.diff" ] && P="$SD/patch_rebased.diff"; if git apply --whitespace=nowarn "$P" 2>/dev/null; then applies=true; else applies=false; fi
 demo_patched=-1; tests="not run"; check_rc=-1; check_sites=""
